@@ -95,7 +95,7 @@ class BaseBlock(ABC):
             Normalised data block.
         """
         zscore_re = stats.estimate_zscore(self.data, loc_method, scale_method, axis)
-        return self.__class__(zscore_re.data, self.header.new_header())
+        return self._derived(zscore_re.data, self.header.new_header())
 
     def pad_samples(
         self,
@@ -132,10 +132,14 @@ class BaseBlock(ABC):
         data_pad = np.ones((self.data.shape[0], nsamps_final), dtype=self.data.dtype)
         data_pad *= pad_values[:, None]
         data_pad[:, offset : offset + self.data.shape[1]] = self.data
-        return self.__class__(
+        return self._derived(
             data_pad,
             self.header.new_header({"nsamples": nsamps_final}),
         )
+
+    def _derived(self, data: np.ndarray, header: Header) -> Self:
+        """Block of the same kind around new data (keeps what describes the data)."""
+        return self.__class__(data, header)
 
     @abstractmethod
     def plot(self, *args, **kwargs) -> None:  # noqa: ANN002, ANN003
@@ -177,6 +181,10 @@ class FilterbankBlock(BaseBlock):
     def __init__(self, data: np.ndarray, header: Header, dm: float = 0) -> None:
         super().__init__(data, header)
         self._dm = dm
+
+    def _derived(self, data: np.ndarray, header: Header) -> FilterbankBlock:
+        # The DM the data were dedispersed at stays with the data
+        return FilterbankBlock(data, header, self.dm)
 
     @property
     def dm(self) -> float:
@@ -233,7 +241,7 @@ class FilterbankBlock(BaseBlock):
             "nsamples": self.header.nsamples // tfactor,
             "nchans": self.header.nchans // ffactor,
         }
-        return FilterbankBlock(new_ar, self.header.new_header(changes))
+        return FilterbankBlock(new_ar, self.header.new_header(changes), self.dm)
 
     def get_tim(self) -> TimeSeries:
         """Sum across all frequencies for each time sample.
@@ -357,7 +365,7 @@ class FilterbankBlock(BaseBlock):
                 f"{self.header.basename}_{self.header.tstart:.12f}_"
                 f"to_{mjd_after:.12f}.fil"
             )
-        updates = {"nbits": 32}
+        updates = {"nbits": 32, "dm": self.dm}
         out_file = self.header.prep_outfile(filename, updates=updates, nbits=32)
         out_file.cwrite(self.data.transpose().ravel())
         return filename
@@ -385,6 +393,9 @@ class DMTBlock(BaseBlock):
         super().__init__(data, header)
         self._dms = np.asarray(dms, dtype=np.float32)
         self._check_dm_input()
+
+    def _derived(self, data: np.ndarray, header: Header) -> DMTBlock:
+        return DMTBlock(data, header, self.dms)
 
     @property
     def dms(self) -> np.ndarray:
